@@ -110,18 +110,6 @@ impl ReadZone {
                     )
                 }
             }
-            Some(Special::NxDomain) => {
-                if walk.enabled() {
-                    self.query_children(
-                        node.children(),
-                        label,
-                        qname,
-                        qtype,
-                        walk,
-                    );
-                }
-                NodeAnswer::nx_domain()
-            }
             Some(Special::Cname(cname)) => {
                 if walk.enabled() {
                     let mut rrset = Rrset::new(Rtype::CNAME, cname.ttl());
@@ -137,7 +125,9 @@ impl ReadZone {
                     walk,
                 )
             }
-            None => self.query_children(
+            // A node without data of its own (marked NXDOMAIN by the
+            // write interface) can still have names below it.
+            Some(Special::NxDomain) | None => self.query_children(
                 node.children(),
                 label,
                 qname,
@@ -156,8 +146,11 @@ impl ReadZone {
         node.with_special(self.version, |special| match special {
             Some(Special::Cut(cut)) => self.query_at_cut(cut, qtype),
             Some(Special::Cname(cname)) => NodeAnswer::cname(cname.clone()),
-            Some(Special::NxDomain) => NodeAnswer::nx_domain(),
-            None => self.query_rrsets(node.rrsets(), qtype, walk),
+            // Only nodes whose name exists are queried, so a node without
+            // data of its own is an empty non-terminal: NODATA.
+            Some(Special::NxDomain) | None => {
+                self.query_rrsets(node.rrsets(), qtype, walk)
+            }
         })
     }
 
@@ -262,9 +255,11 @@ impl ReadZone {
         }
 
         // Step 1: See if we have a non-terminal child for label. If so,
-        //         continue there.
+        //         continue there. Nodes are never removed from the tree, so
+        //         a child only counts if its name exists in this version.
         let answer = children.with(label, |node| {
-            node.map(|node| self.query_node(node, qname, qtype, walk.clone()))
+            node.filter(|node| node.exists(self.version))
+                .map(|node| self.query_node(node, qname, qtype, walk.clone()))
         });
         if let Some(answer) = answer {
             return answer;
@@ -272,11 +267,13 @@ impl ReadZone {
 
         // Step 2: Now see if we have an asterisk label. If so, query that
         // node.
-        children.with(Label::wildcard(), |node| match node {
-            Some(node) => {
-                self.query_node_here_but_not_below(node, qtype, walk)
+        children.with(Label::wildcard(), |node| {
+            match node.filter(|node| node.exists(self.version)) {
+                Some(node) => {
+                    self.query_node_here_but_not_below(node, qtype, walk)
+                }
+                None => NodeAnswer::nx_domain(),
             }
-            None => NodeAnswer::nx_domain(),
         })
     }
 }
